@@ -614,3 +614,249 @@ Proof.
   split; [exact A|]. split; [rewrite Est; reflexivity|].
   intros h. rewrite (view_eq (r_st r')). rewrite A. unfold staged_of. rewrite Est. reflexivity.
 Qed.
+
+(** ** Retention by number and age: what the loop of [find_deltas_truncate_age] guarantees *)
+Lemma usize_pred_pos a n : 1 <= n -> usize_pred a n = Some (n - 1).
+Proof. intros H. unfold usize_pred. destruct (n =? 0) eqn:E; [apply N.eqb_eq in E; lia|reflexivity]. Qed.
+
+Lemma age_loop_le a c now ds : forall keep k, age_loop a c now ds keep = Some k -> keep <= k <= keep + N.of_nat (length ds).
+Proof.
+  induction ds as [|d ds IH]; intros keep k H; simpl in H.
+  - inv H. simpl. lia.
+  - simpl length. destruct (_ || _).
+    + apply IH in H. lia.
+    + destruct (usize_pred a (c_max_nr c)) as [m|]; [|discriminate].
+      destruct (_ || _); [inv H; lia|apply IH in H; lia].
+Qed.
+
+(** If the delta at index [max_nr - 1] is not protected, the count test fires there at the
+    latest. *)
+Lemma age_loop_bound a c now ds : forall keep k,
+  1 <= c_max_nr c -> keep <= c_max_nr c - 1 ->
+  age_loop a c now ds keep = Some k ->
+  (forall x, nth_error ds (N.to_nat (c_max_nr c - 1 - keep)) = Some x -> protected c now (c_max_nr c - 1) x = false) ->
+  k <= c_max_nr c - 1.
+Proof.
+  induction ds as [|d ds IH]; intros keep k H1 Hk H Hp; simpl in H; [inv H; assumption|].
+  rewrite (usize_pred_pos a _ H1) in H.
+  destruct (N.eq_dec keep (c_max_nr c - 1)) as [E|E].
+  - assert (P : protected c now (c_max_nr c - 1) d = false).
+    { apply Hp. rewrite E, N.sub_diag. reflexivity. }
+    unfold protected in P. rewrite <- E in P. rewrite P in H. rewrite E, N.eqb_refl in H. simpl in H. inv H. lia.
+  - assert (Hn : forall x, nth_error ds (N.to_nat (c_max_nr c - 1 - (keep + 1))) = Some x -> protected c now (c_max_nr c - 1) x = false).
+    { intros x Hx. apply Hp. replace (N.to_nat (c_max_nr c - 1 - keep)) with (S (N.to_nat (c_max_nr c - 1 - (keep + 1)))) by lia. exact Hx. }
+    destruct (_ || _).
+    + apply (IH (keep + 1)); auto; lia.
+    + destruct (_ || _); [inv H; assumption|apply (IH (keep + 1)); auto; lia].
+Qed.
+
+(** The strongest bound by number: more than [max_nr - 1] old deltas survive only if the delta at
+    index [max_nr - 1] is protected (then the test [keep == max_nr - 1] is passed over and never
+    fires again). *)
+Theorem retention_bound_strong a c now ds k :
+  1 <= c_max_nr c -> find_deltas_truncate_age a c now ds = Some k ->
+  (forall x, nth_error ds (N.to_nat (c_max_nr c - 1)) = Some x -> protected c now (c_max_nr c - 1) x = false) ->
+  k <= c_max_nr c - 1.
+Proof.
+  intros H1 H Hp. apply (age_loop_bound a c now ds 0 k H1); [lia|exact H|].
+  rewrite N.sub_0_r. exact Hp.
+Qed.
+
+(** [retention_bound] in the form of DESIGN Appendix A.4: if no delta at an index >= max_nr - 1
+    is protected, at most max_nr - 1 old deltas are kept (so at most max_nr with the new one). *)
+Theorem retention_bound a c now ds k :
+  1 <= c_max_nr c -> find_deltas_truncate_age a c now ds = Some k ->
+  (forall i x, nth_error ds i = Some x -> c_max_nr c - 1 <= N.of_nat i -> protected c now (N.of_nat i) x = false) ->
+  k <= c_max_nr c - 1.
+Proof.
+  intros H1 H Hp. apply (retention_bound_strong a c now ds k H1 H).
+  intros x Hx. specialize (Hp _ _ Hx). rewrite N2Nat.id in Hp. apply Hp. lia.
+Qed.
+
+(** Every old delta that is kept is protected, or neither too old nor at the count limit. *)
+Lemma age_loop_kept a c now ds : forall keep k m,
+  usize_pred a (c_max_nr c) = Some m \/ (forall i x, nth_error ds i = Some x -> protected c now (keep + N.of_nat i) x = true) ->
+  age_loop a c now ds keep = Some k ->
+  forall i x, nth_error ds i = Some x -> keep + N.of_nat i < k ->
+    protected c now (keep + N.of_nat i) x = true
+    \/ (older_than now (c_max_secs c) x = false /\ usize_pred a (c_max_nr c) <> Some (keep + N.of_nat i)).
+Proof.
+  induction ds as [|d ds IH]; intros keep k m Hm H i x Hn Hi; [destruct i; discriminate|].
+  simpl in H. destruct i as [|i]; simpl in Hn.
+  - inv Hn. rewrite N.add_0_r in *. unfold protected. destruct (_ || _) eqn:P; [left; reflexivity|right].
+    destruct (usize_pred a (c_max_nr c)) as [m'|]; [|discriminate].
+    destruct ((keep =? m') || older_than now (c_max_secs c) x) eqn:B; [inv H; lia|].
+    apply orb_false_iff in B. destruct B as [B1 B2]. apply N.eqb_neq in B1. split; [exact B2|congruence].
+  - replace (keep + N.of_nat (S i)) with (keep + 1 + N.of_nat i) in * by lia.
+    assert (Hm' : usize_pred a (c_max_nr c) = Some m \/ (forall j y, nth_error ds j = Some y -> protected c now (keep + 1 + N.of_nat j) y = true)).
+    { destruct Hm as [Hm|Hm]; [left; exact Hm|right]. intros j y Hy. specialize (Hm (S j) y Hy).
+      replace (keep + N.of_nat (S j)) with (keep + 1 + N.of_nat j) in Hm by lia. exact Hm. }
+    destruct (_ || _).
+    + eapply IH; eassumption.
+    + destruct (usize_pred a (c_max_nr c)); [|discriminate].
+      destruct (_ || _); [inv H; lia|eapply IH; eassumption].
+Qed.
+
+Theorem kept_not_old a c now ds k i x :
+  find_deltas_truncate_age a c now ds = Some k -> nth_error ds i = Some x -> N.of_nat i < k ->
+  protected c now (N.of_nat i) x = true \/ older_than now (c_max_secs c) x = false.
+Proof.
+  intros H Hn Hi. unfold find_deltas_truncate_age in H.
+  destruct (usize_pred a (c_max_nr c)) as [m|] eqn:Em.
+  - destruct (age_loop_kept a c now ds 0 k m (or_introl Em) H i x Hn) as [P|[O _]]; [lia|left; exact P|right; exact O].
+  - (* the subtraction would have panicked: the loop only passed protected deltas *)
+    assert (G : forall ds keep k, age_loop a c now ds keep = Some k -> forall j y, nth_error ds j = Some y -> keep + N.of_nat j < k -> protected c now (keep + N.of_nat j) y = true).
+    { clear - Em. induction ds as [|d ds IH]; intros keep k H j y Hy Hj; [destruct j; discriminate|].
+      simpl in H. rewrite Em in H. destruct ((keep <? c_min_nr c) || younger_than now (c_min_secs c) d) eqn:P; [|discriminate].
+      destruct j as [|j]; simpl in Hy.
+      - inv Hy. rewrite N.add_0_r. exact P.
+      - replace (keep + N.of_nat (S j)) with (keep + 1 + N.of_nat j) in * by lia. eapply IH; eassumption. }
+    left. apply (G ds 0 k H i x Hn). lia.
+Qed.
+
+(** Where the loop stops: at the end of the list, or at the first delta that is not protected
+    and is at the count limit or too old. *)
+Theorem truncate_age_stop a c now ds k :
+  find_deltas_truncate_age a c now ds = Some k ->
+  k = N.of_nat (length ds) \/
+  exists x m, nth_error ds (N.to_nat k) = Some x /\ protected c now k x = false
+              /\ usize_pred a (c_max_nr c) = Some m /\ (k = m \/ older_than now (c_max_secs c) x = true).
+Proof.
+  unfold find_deltas_truncate_age.
+  assert (G : forall ds keep k, age_loop a c now ds keep = Some k ->
+    k = keep + N.of_nat (length ds) \/
+    exists x m, nth_error ds (N.to_nat (k - keep)) = Some x /\ protected c now k x = false
+                /\ usize_pred a (c_max_nr c) = Some m /\ (k = m \/ older_than now (c_max_secs c) x = true)).
+  { clear. induction ds as [|d ds IH]; intros keep k H; simpl in H; [inv H; left; simpl; lia|].
+    simpl length. destruct ((keep <? c_min_nr c) || younger_than now (c_min_secs c) d) eqn:P.
+    - pose proof (age_loop_le _ _ _ _ _ _ H) as Hl.
+      destruct (IH _ _ H) as [E|[x [m [Hx R]]]]; [left; lia|right].
+      exists x, m. split; [|exact R]. replace (N.to_nat (k - keep)) with (S (N.to_nat (k - (keep + 1)))) by lia. exact Hx.
+    - destruct (usize_pred a (c_max_nr c)) as [m|] eqn:Em; [|discriminate].
+      destruct ((keep =? m) || older_than now (c_max_secs c) d) eqn:B.
+      + inv H. right. exists d, m. rewrite N.sub_diag. split; [reflexivity|]. split; [exact P|]. split; [reflexivity|].
+        apply orb_true_iff in B. destruct B as [B|B]; [left; apply N.eqb_eq; exact B|right; exact B].
+      + pose proof (age_loop_le _ _ _ _ _ _ H) as Hl.
+        destruct (IH _ _ H) as [E|[x [m' [Hx R]]]]; [left; lia|right].
+        exists x, m'. split; [|exact R]. replace (N.to_nat (k - keep)) with (S (N.to_nat (k - (keep + 1)))) by lia. exact Hx. }
+  intros H. destruct (G ds 0 k H) as [E|[x [m [Hx R]]]]; [left; lia|right].
+  exists x, m. rewrite N.sub_0_r in Hx. auto.
+Qed.
+
+(** After the step: at most one more delta than the loop kept (the size rule only removes). *)
+Theorem retained_le_kept_plus_one a sz r orc r' k :
+  rstep a sz r OUpdate orc = Some r' -> staged_nonempty (r_st r) = true ->
+  find_deltas_truncate_age a (or_cfg orc) (or_now orc) (r_deltas r) = Some k ->
+  N.of_nat (length (r_deltas r')) <= k + 1.
+Proof.
+  intros H En Ek. unfold rstep in H. rewrite En, Ek in H. inv H.
+  unfold apply_rrdp_updated. cbn [r_deltas u_truncate]. unfold deltas_truncate_size.
+  rewrite firstn_length. simpl length. rewrite firstn_length. lia.
+Qed.
+
+(** The property's clause "the retained deltas never exceed the configured maximum number",
+    under the condition under which it is true. *)
+Theorem retention_system a sz r orc r' :
+  rstep a sz r OUpdate orc = Some r' -> staged_nonempty (r_st r) = true ->
+  1 <= c_max_nr (or_cfg orc) ->
+  (forall x, nth_error (r_deltas r) (N.to_nat (c_max_nr (or_cfg orc) - 1)) = Some x ->
+             protected (or_cfg orc) (or_now orc) (c_max_nr (or_cfg orc) - 1) x = false) ->
+  N.of_nat (length (r_deltas r')) <= c_max_nr (or_cfg orc).
+Proof.
+  intros H En H1 Hp.
+  destruct (find_deltas_truncate_age a (or_cfg orc) (or_now orc) (r_deltas r)) as [k|] eqn:Ek.
+  - pose proof (retained_le_kept_plus_one _ _ _ _ _ _ H En Ek).
+    pose proof (retention_bound_strong _ _ _ _ _ H1 Ek Hp). lia.
+  - unfold rstep in H. rewrite En, Ek in H. discriminate.
+Qed.
+
+(** *** F11a: the unconditional bound is false *)
+Definition w_young (t : Z) (s : N) : ddata := mkD s t 0 [].
+(** max_nr = 2, min_seconds = 1 h, three deltas made within the last seconds: all three are kept
+    (four with the new one). *)
+Example retention_young_refuted :
+  find_deltas_truncate_age Checked (mkCfg 0 3600 2 7200 false) 100000000%Z
+    [w_young 99000000 4; w_young 98000000 3; w_young 97000000 2] = Some 3.
+Proof. vm_compute. reflexivity. Qed.
+(** min_nr = 5 >= max_nr = 2, even with every delta older than max_seconds = 0: five are kept. *)
+Example retention_min_ge_max_refuted :
+  find_deltas_truncate_age Checked (mkCfg 5 0 2 0 false) 100000000%Z
+    [w_young 5 7; w_young 4 6; w_young 3 5; w_young 2 4; w_young 1 3; w_young 0 2] = Some 5.
+Proof. vm_compute. reflexivity. Qed.
+(** min_nr = max_nr = 1: index 0 is protected, so the count test (keep == 0) is passed over and
+    nothing is ever cut by number. *)
+Example retention_min_eq_max_refuted :
+  find_deltas_truncate_age Checked (mkCfg 1 0 1 7200 false) 100000000%Z
+    [w_young 99000000 5; w_young 98000000 4; w_young 97000000 3; w_young 96000000 2] = Some 4.
+Proof. vm_compute. reflexivity. Qed.
+
+(** The same on the whole server: a reachable state, one update, three retained deltas under
+    max_nr = 2. *)
+Definition w_base : jail := mkJail 1 1 [].
+Definition w_uri (n : N) : uri := mkUri 0 1 0 1 0 [7; n].
+Definition w_cfg : cfg := mkCfg 0 3600 2 7200 false.
+Definition w_orc (t : Z) (rnd : N) : oracle := mkOracle t rnd 9 w_cfg.
+Definition w_ops : list rop :=
+  [ (OCreate [7], w_orc 0 0);
+    (OPublish [7] [Pub (w_uri 1) (11, 11)], w_orc 0 0); (OUpdate, w_orc 1000000 1);
+    (OPublish [7] [Pub (w_uri 2) (12, 12)], w_orc 0 0); (OUpdate, w_orc 2000000 2);
+    (OPublish [7] [Pub (w_uri 3) (13, 13)], w_orc 0 0); (OUpdate, w_orc 3000000 3);
+    (OPublish [7] [Pub (w_uri 4) (14, 14)], w_orc 0 0) ].
+Definition w_sz : N -> N := fun _ => 1.
+Definition w_state : rrdp :=
+  match rrun Checked w_sz (rinit w_base 8 0) w_ops with Some r => r | None => rinit w_base 8 0 end.
+
+Lemma w_good : good_rops w_ops.
+Proof.
+  unfold good_rops, w_ops.
+  repeat (apply Forall_cons;
+          [simpl; try exact I; try (split; [apply NoDupK_b_spec|apply CohL_b_spec]; vm_compute; reflexivity)|]).
+  apply Forall_nil.
+Qed.
+Lemma w_state_run : rrun Checked w_sz (rinit w_base 8 0) w_ops = Some w_state.
+Proof. vm_compute. reflexivity. Qed.
+Lemma w_state_inv : RInv w_state.
+Proof. eapply rinv_run; [apply rinv_init|apply w_good|apply w_state_run]. Qed.
+
+Theorem retention_unconditional_refuted : ~ retention_unconditional.
+Proof.
+  intros H.
+  destruct (rstep Checked w_sz w_state OUpdate (w_orc 4000000 4)) as [r'|] eqn:E; [|vm_compute in E; discriminate].
+  specialize (H Checked w_sz w_state OUpdate (w_orc 4000000 4) r' w_state_inv E eq_refl).
+  vm_compute in E. inv E. destruct H as [H|H]; [vm_compute in H; apply H; reflexivity|discriminate].
+Qed.
+
+(** *** F11b: max_nr = 0 *)
+(** With overflow checks the subtraction panics as soon as a delta is not protected ... *)
+Theorem max_nr_zero_panics c now d ds :
+  c_max_nr c = 0 -> protected c now 0 d = false -> find_deltas_truncate_age Checked c now (d :: ds) = None.
+Proof.
+  intros H0 P. unfold find_deltas_truncate_age. simpl. unfold protected in P. rewrite P. rewrite H0. reflexivity.
+Qed.
+(** ... and without them (release profile) [max_nr - 1] is 2^64 - 1: the count test never fires,
+    any number of deltas that are not too old is kept. *)
+Theorem max_nr_zero_wraps c now ds :
+  c_max_nr c = 0 -> N.of_nat (length ds) < usize_max ->
+  (forall d, In d ds -> older_than now (c_max_secs c) d = false) ->
+  find_deltas_truncate_age Wrapping c now ds = Some (N.of_nat (length ds)).
+Proof.
+  intros H0 Hl Ho. unfold find_deltas_truncate_age.
+  assert (G : forall ds keep, keep + N.of_nat (length ds) < usize_max ->
+             (forall d, In d ds -> older_than now (c_max_secs c) d = false) ->
+             age_loop Wrapping c now ds keep = Some (keep + N.of_nat (length ds))).
+  { clear - H0. induction ds as [|d ds IH]; intros keep Hl Ho; [simpl; f_equal; lia|].
+    cbn [age_loop]. rewrite H0. change (usize_pred Wrapping 0) with (Some usize_max).
+    rewrite (Ho d) by (simpl; auto). rewrite orb_false_r.
+    assert (E : (keep =? usize_max) = false) by (apply N.eqb_neq; simpl length in Hl; lia).
+    rewrite E.
+    assert (R : age_loop Wrapping c now ds (keep + 1) = Some (keep + N.of_nat (length (d :: ds)))).
+    { rewrite IH; [f_equal; simpl length; lia|simpl length in Hl; lia|intros x Hx; apply Ho; simpl; auto]. }
+    destruct (_ || _); exact R. }
+  rewrite G; [reflexivity|simpl; lia|exact Ho].
+Qed.
+Example max_nr_zero_refuted :
+  find_deltas_truncate_age Wrapping (mkCfg 0 0 0 7200 false) 100000000%Z
+    [w_young 99000000 4; w_young 98000000 3; w_young 97000000 2] = Some 3
+  /\ find_deltas_truncate_age Checked (mkCfg 0 0 0 7200 false) 100000000%Z
+    [w_young 99000000 4; w_young 98000000 3; w_young 97000000 2] = None.
+Proof. split; vm_compute; reflexivity. Qed.
